@@ -167,6 +167,23 @@ def run_calls(py7zr, raw, shape, info, calls, *, target="stream", password=None,
                     ev["out"].sort()
                     ev["dirs_out"].sort()
                     ev["bad"].sort()
+                elif c["name"] == "wrongmode":
+                    # a write-side call on the read-mode object; content that no codec can hold back (it would reach the file at once)
+                    import random as _rnd
+                    blob = _rnd.Random(len(trace)).randbytes(400000)
+                    k = c.get("k", "writestr")
+                    if k == "writestr":
+                        z.writestr(blob, "intruder.bin")
+                    elif k == "writef":
+                        z.writef(io.BytesIO(blob), "intruder.bin")
+                    elif k in ("write", "writeall"):
+                        sp = os.path.join(workdir, "intruder.bin")
+                        with open(sp, "wb") as f:
+                            f.write(blob)
+                        getattr(z, k)(sp, "intruder.bin")
+                    else:
+                        z.set_encoded_header_mode(False)
+                        z.set_encrypted_header(True)
                 elif c["name"] == "reset":
                     z.reset()
                 elif c["name"] == "test":
@@ -208,6 +225,9 @@ def run_calls(py7zr, raw, shape, info, calls, *, target="stream", password=None,
             except Exception as e:  # noqa
                 ev["ok"] = False
                 ev["exc"] = type(e).__name__ + ":" + str(e)[:100]
+            if c["name"] == "wrongmode":
+                ev["k"] = c.get("k", "writestr")
+                ev["same"] = hashlib.sha256(open(path, "rb").read() if path else src.getvalue()).hexdigest() == h0
             trace.append(ev)
         end = {"e": "closed", "how": ending, "exc": "", "same": True}
         try:
